@@ -6,6 +6,7 @@ package patch
 import (
 	"bytes"
 	"fmt"
+	"os"
 	"runtime"
 	"syscall"
 	"testing"
@@ -293,4 +294,133 @@ func c03Replay(t *testing.T) {
 			return c03Check(uintptr(f.Entry+img.Slide), uintptr(f.End+img.Slide), tramp, s)
 		}}
 	p.Main(t, 0)
+}
+
+// ---- placeholders that are just big enough / just too small (the write must stay inside the placeholder's own body) ----
+
+type c03TightCase struct {
+	Func  string `json:"func"`
+	Need  int    `json:"bytes_needed"`
+	Size  int    `json:"placeholder_size"`
+	Tramp uint64 `json:"placeholder"`
+}
+
+func TestVerifC03Tight(t *testing.T) {
+	if vkit.Replaying() {
+		return
+	}
+	logger.LogLevel = 0
+	prop := os.Getenv("VERIF_TIGHT_PROP") // the same sweep serves C03 (faithful trampoline or refusal) and C14 (write stays inside the placeholder)
+	if prop == "" {
+		prop = "C03"
+	}
+	s := vkit.NewStats(prop, "tight-placeholders")
+	defer s.Flush()
+	img := vkit.SnapshotText()
+	hint := (img.Addr + uintptr(len(img.Live)) + 0x4000000) &^ 0xfff
+	const cell = 128
+	nfun := vkit.Scale(1200, 12000)
+	size := (nfun*9*cell + 8192) &^ 4095
+	base, err := vkit.MmapAt(hint, size, syscall.PROT_READ|syscall.PROT_WRITE|syscall.PROT_EXEC)
+	if err != nil {
+		t.Fatalf("mmap: %v", err)
+	}
+	mem := vkit.Bytes(base, size)
+	next := 0
+	sh, nsh := vkit.Shard()
+	funcs := img.Im.Funcs
+	step := len(funcs)/nfun + 1
+	neighbour := []byte{0xB8, 0x2A, 0x00, 0x00, 0x00, 0xC3, 0xCC, 0xCC, 0x48, 0x89, 0xC9, 0xC3, 0xCC, 0xCC, 0xCC, 0xCC}
+	for fi := int(vkit.Seed()) % step; fi < len(funcs); fi += step {
+		if (fi/step)%nsh != sh {
+			continue
+		}
+		f := funcs[fi]
+		entry := uintptr(f.Entry + img.Slide)
+		fsize, e := bytecode.GetFuncSize(defaultArchMod, entry, false)
+		if e != nil {
+			continue
+		}
+		orig := memory.RawRead(entry, fsize)
+		// how many bytes does the trampoline of this function need at this distance?
+		probe := base + uintptr(next*cell)
+		var fixed []byte
+		var ferr error
+		if r := c03Refusal(func() { fixed, _, ferr = fixRelativeAddr(entry, orig, probe, fsize, 13) }); r != nil || ferr != nil {
+			continue // refused prologues are the static unit's business
+		}
+		need := len(fixed) + 5
+		for _, n := range []int{need - 4, need - 3, need - 2, need - 1, need, need + 1, need + 3} {
+			if n < 15 || n > cell-24 || (next+2)*cell > size {
+				continue
+			}
+			slot := mem[next*cell : (next+1)*cell]
+			tramp := base + uintptr(next*cell)
+			next++
+			// goom leaves the pages it wrote read+execute: make this cell writable for the harness again
+			if err := vkit.Mprotect(tramp&^4095, 8192, syscall.PROT_READ|syscall.PROT_WRITE|syscall.PROT_EXEC); err != nil {
+				t.Fatalf("mprotect: %v", err)
+			}
+			// [placeholder: n-2 bytes of filler, RET, INT3][neighbour function][another function]...
+			i := 0
+			for ; i+3 <= n-2; i += 3 {
+				copy(slot[i:], []byte{0x48, 0x89, 0xC9})
+			}
+			for ; i < n-2; i++ {
+				slot[i] = 0x90
+			}
+			slot[n-2] = 0xC3
+			slot[n-1] = 0xCC
+			for j := n; j < cell; j += len(neighbour) {
+				copy(slot[j:], neighbour)
+			}
+			before := append([]byte(nil), slot...)
+			c := &c03TightCase{Func: f.Name, Need: need, Size: n, Tramp: uint64(tramp)}
+			s.Eval(1)
+			var werr error
+			if r := c03Refusal(func() { _, werr = fixOriginFuncToTrampoline(entry, tramp, 13) }); r != nil {
+				werr = fmt.Errorf("panic: %v", r)
+			}
+			for j := n; j < cell; j++ {
+				if slot[j] != before[j] {
+					msg := fmt.Sprintf("%s: trampoline needs %d bytes, placeholder body is %d bytes (apply error: %v): byte +%d of the neighbouring function changed from %#x to %#x", f.Name, need, n, werr, j-n, before[j], slot[j])
+					s.Violation(msg, c)
+					t.Errorf("%s", msg)
+					return
+				}
+			}
+			if werr != nil {
+				if !bytes.Equal(slot, before) {
+					msg := fmt.Sprintf("%s: placeholder of %d bytes refused (%v) but its bytes changed", f.Name, n, werr)
+					s.Violation(msg, c)
+					t.Errorf("%s", msg)
+					return
+				}
+				s.Class("refused-too-small")
+			} else {
+				if n < need {
+					msg := fmt.Sprintf("%s: trampoline needs %d bytes but a placeholder of %d bytes was accepted", f.Name, need, n)
+					s.Violation(msg, c)
+					t.Errorf("%s", msg)
+					return
+				}
+				s.Class("accepted")
+			}
+			if n >= need-4 && n <= need+1 {
+				s.NonTrivial(fmt.Sprintf("%s/%d", f.Name, n))
+			}
+			if need > 18+5 {
+				s.Class("trampoline-with-widened-branch-or-long-prefix")
+			}
+			if fi%997 == 0 {
+				s.Sample(c)
+			}
+		}
+	}
+	if d := img.Diff(); len(d) != 0 {
+		s.Violation("text image changed: "+img.Describe(d), map[string]string{"what": "diff"})
+		t.Errorf("text changed")
+		return
+	}
+	s.Completed = true
 }
